@@ -70,6 +70,15 @@ def run(tier):
     for i, a in enumerate(flags):
         for rep in range(2 if tier == "quick" else len(ffams)):
             jobs.append({"family": ffams[(i + rep * 3) % len(ffams)], "seed": "c13f-%d-%d-%d" % (vlib.seed(), i, rep), "args": a, "capture": False})
+    # the printers that map optimised operators back to source operators (debug database uids), on every single-operator
+    # model: an operator that the graph optimiser decomposes (SOFTMAX, LSTM, PRELU, grouped convolutions, MEAN ...) registers
+    # generated operators whose source uid is inherited, and in a one-operator model a wrong uid has no entry to fall on
+    for rep in range(1 if tier == "quick" else 3):
+        for i, kind in enumerate(netgen.SINGLE_KINDS):
+            acc = ["ethos-u55-128", "ethos-u65-256", "ethos-u55-64", "ethos-u65-512"][(i + rep) % 4]
+            jobs.append({"family": "single:" + kind, "seed": "c13d-%d-%d" % (vlib.seed(), rep),
+                         "args": ["--accelerator-config", acc, "--verbose-performance", "--enable-debug-db"] +
+                                 (["--verbose-all"] if rep == 2 else []), "capture": False})
     results = compiles.run_all(jobs, timeout=900)
     stat = collections.Counter(r["status"] for r in results)
     fams = collections.Counter(r["job"]["family"] for r in results)
